@@ -62,11 +62,33 @@ def gen_config(rng, i, quick):
     return cfg, threads, jitter
 
 
+def gen_rhd_config(rng, i):
+    """radiation hydrodynamics: the same photon loop inside --task-based-rhd (2 steps, radiation every step)"""
+    import hydrorun
+    nsub = [rng.choice([1, 2, 2, 3]) for _ in range(3)]
+    cps = rng.choice([2, 4])
+    ncell = [n * cps for n in nsub]
+    L = 3e16
+    box = ([0., 0., 0.], [L, L, L])
+    blocks, kind = hydrorun.gen_state(rng, ncell, box, kind="boxes")
+    for b in blocks:
+        b["density"] = 10 ** rng.uniform(7.5, 9)
+    cfg = dict(ncell=ncell, nsub=nsub, periodic=[False] * 3, box=box, blocks=blocks, gamma=5. / 3., cfl=0.2, total_time=1e10, radiation=True,
+               nphoton=rng.choice([199, 1001, 2000]), niter=rng.choice([1, 2]), copy_level=rng.choice([0, 1, 2]),
+               nbuffers=27 * nsub[0] * nsub[1] * nsub[2] * 5 + 600, diffuse=rng.choice([None, "FixedValue"]), luminosity=1e47,
+               writer="Gadget", seed=rng.randint(1, 10 ** 6), rhd=True)
+    threads = rng.choice([1, 2, 4, 8])
+    jitter = None if rng.chance(0.25) else "%d:%d:%d" % (rng.randint(1, 10 ** 6), rng.choice([5, 30, 200]), rng.choice([50, 2000]))
+    return cfg, threads, jitter
+
+
 def one_run(job):
     i, cfg, threads, jitter, exe, root, tsan = job
-    rd = os.path.join(root, ("tsan%03d" if tsan else "run%03d") % i)
+    rhd = bool(cfg.get("rhd"))
+    rd = os.path.join(root, ("tsan%03d" if tsan else ("rhd%03d" if rhd else "run%03d")) % i)
     os.makedirs(rd, exist_ok=True)
-    pf = params.photo_params(cfg, rd)
+    pf = params.rhd_params(cfg, rd) if rhd else params.photo_params(cfg, rd)
+    mode_args = ["--task-based-rhd", "--number-of-steps", "2"] if rhd else ["--task-based"]
     env = {}
     if jitter:
         env["CMI_VERIF_JITTER"] = jitter
@@ -78,11 +100,11 @@ def one_run(job):
             os.remove(env["CMI_VERIF_TRACE"])
         env["CMI_VERIF_TRACE_LEVEL"] = "2"
     timeout = 600 if tsan else 300
-    r = binrun.run_cmi(exe, rd, ["--params", pf, "--task-based"], env=env, timeout=timeout, threads=threads)
+    r = binrun.run_cmi(exe, rd, ["--params", pf] + mode_args, env=env, timeout=timeout, threads=threads)
     if r.timed_out:
-        r = binrun.run_cmi(exe, rd, ["--params", pf, "--task-based"], env=env, timeout=timeout, threads=threads)
-        if os.path.exists(os.path.join(rd, "trace.bin")) and not tsan:
-            pass
+        if not tsan and os.path.exists(env["CMI_VERIF_TRACE"]):
+            os.remove(env["CMI_VERIF_TRACE"])
+        r = binrun.run_cmi(exe, rd, ["--params", pf] + mode_args, env=env, timeout=timeout, threads=threads)
     res = dict(i=i, rd=rd, rc=r.rc, timed_out=r.timed_out, threads=threads, jitter=jitter, cfg=cfg, tsan=tsan,
                stderr_tail=(r.err or "")[-600:], viol=[], stats={}, wall=r.wall)
     if tsan:
@@ -119,6 +141,9 @@ def main():
         for i in range(nruns):
             cfg, th, jit = gen_config(rng.fork("c%d" % i), i, quick)
             jobs.append((i, cfg, th, jit, exe, root, False))
+        for i in range(6 if quick else 60):
+            cfg, th, jit = gen_rhd_config(rng.fork("r%d" % i), i)
+            jobs.append((i, cfg, th, jit, exe, root, False))
         for i in range(ntsan):
             cfg, th, jit = gen_config(rng.fork("t%d" % i), i + 1, True)
             cfg["nphoton"] = min(cfg["nphoton"], 2000)
@@ -133,8 +158,8 @@ def main():
         for res in ex.map(one_run, jobs):
             rp = dict(cfg=res["cfg"], threads=res["threads"], jitter=res["jitter"], tsan=res["tsan"])
             label = "%s threads=%d jitter=%s nsub=%s periodic=%s N=%d cont=%s diffuse=%s copy=%d" % (
-                "tsan" if res["tsan"] else "run", res["threads"], res["jitter"], res["cfg"]["nsub"], res["cfg"]["periodic"],
-                res["cfg"]["nphoton"], res["cfg"]["continuous"], res["cfg"]["diffuse"], res["cfg"]["copy_level"])
+                "tsan" if res["tsan"] else ("rhd" if res["cfg"].get("rhd") else "run"), res["threads"], res["jitter"], res["cfg"]["nsub"], res["cfg"]["periodic"],
+                res["cfg"]["nphoton"], res["cfg"].get("continuous"), res["cfg"]["diffuse"], res["cfg"]["copy_level"])
             if res["wall"] > 30:
                 print("[c01] slow run %.0f s: %s" % (res["wall"], label), flush=True)
             if res["timed_out"]:
@@ -172,7 +197,7 @@ def main():
                 distinct_cfg.add(json.dumps(res["cfg"], sort_keys=True) + str(res["threads"]) + str(res["jitter"]))
             if len(chk.coverage["samples"]) < 4:
                 chk.add_sample(dict(threads=res["threads"], jitter=res["jitter"], nsub=res["cfg"]["nsub"], periodic=res["cfg"]["periodic"],
-                                    nphoton=res["cfg"]["nphoton"], niter=res["cfg"]["niter"], continuous=res["cfg"]["continuous"],
+                                    nphoton=res["cfg"]["nphoton"], niter=res["cfg"]["niter"], continuous=res["cfg"].get("continuous"),
                                     diffuse=res["cfg"]["diffuse"], copy_level=res["cfg"]["copy_level"], events=res.get("nevents"),
                                     stats={k: v for k, v in res["stats"].items() if not k.startswith("_")}))
     cov = chk.coverage
@@ -192,7 +217,7 @@ def main():
     if not replay:
         chk.require_nonzero(traced_runs=ok_runs, packets=tot.get("packets_launched"), premature=tot.get("premature_launches"),
                             reemit=tot.get("tasks_photon_reemit"), continuous=tot.get("launch_continuous"),
-                            handovers=tot.get("handover_enters"), tsan_runs=tsan_counts["runs"])
+                            handovers=tot.get("handover_enters"), tsan_runs=tsan_counts["runs"], rhd_traces=tot.get("rhd_traces"))
     chk.finish()
 
 
